@@ -103,6 +103,21 @@ pub struct Inst<T: Sc> {
     pub poly: bool,
 }
 
+/// health of the decomposition of W*Phi at every tabulated parameter vector of a (twin) table
+fn health_of_table<T: Sc>(table: &Table<T>, w: Option<&[T]>) -> Vec<bool> {
+    table
+        .entries
+        .iter()
+        .map(|e| {
+            let pw = match w {
+                Some(w) => DMatrix::from_fn(e.phi.nrows(), e.phi.ncols(), |i, j| w[i] * e.phi[(i, j)]),
+                None => e.phi.clone(),
+            };
+            svd_healthy(&pw)
+        })
+        .collect()
+}
+
 fn svd_healthy<T: Sc>(phi_w: &DMatrix<T>) -> bool {
     // the very call varpro makes; judged by reconstruction and orthonormality of U
     let r = std::panic::catch_unwind(std::panic::AssertUnwindSafe(|| SVD::new(phi_w.clone(), true, true)));
@@ -634,10 +649,16 @@ fn run_inst<T: Sc>(line: &Line, idx: usize, pools: &Pools, opts: &Opts, rep: &mu
         });
         let mrhs = inst.s >= 2;
         let flav = format!("{} column-scaled twin ({} x 2^{})", tag(idx, &fam, T::NAME, Kind::Table, mrhs, false, EpsVar::Default), if all { "all functions".to_string() } else { format!("function {}", jcol) }, sexp);
+        // the twin's matrix is another matrix: the health of ITS decomposition decides whether it is judged
+        let twin_health = health_of_table(&scaled, wref);
         if let Ok(mut twin) = build_problem(TableModel::new(scaled, &a_first), mrhs, false, &inst.y, wref, twin_eps) {
             for &qi in order.iter().take(npts) {
                 let pt = &inst.line.pts[qi];
                 if !(pt.rank == mfull && pt.lvl >= 2 && inst.healthy[qi]) {
+                    continue;
+                }
+                if !twin_health[qi] {
+                    rep.count("twin_points_skipped_unhealthy_svd", 1);
                     continue;
                 }
                 let a: Vec<T> = pt.a.iter().map(|&v| T::of64(v as f64)).collect();
@@ -708,10 +729,15 @@ fn run_inst<T: Sc>(line: &Line, idx: usize, pools: &Pools, opts: &Opts, rep: &mu
         let w2: Option<Vec<T>> = inst.w.as_ref().map(|w| (0..n2).map(|i| w[i % inst.n]).collect());
         let flav = format!("{} twin: observations x 2^{}, every sample x{}", tag(idx, &fam, T::NAME, Kind::Table, mrhs, par, EpsVar::Default), yexp, kk);
         let unscale = (2.0f64).powi(-yexp);
+        let twin_health = health_of_table(&table2, w2.as_deref());
         if let Ok(mut twin) = build_problem(TableModel::new(table2, &a_first), mrhs, par, &y2, w2.as_deref(), None) {
             for &qi in order.iter().take(npts) {
                 let pt = &inst.line.pts[qi];
                 if !(pt.rank == mfull && pt.lvl >= 1 && inst.healthy[qi]) {
+                    continue;
+                }
+                if !twin_health[qi] {
+                    rep.count("twin_points_skipped_unhealthy_svd", 1);
                     continue;
                 }
                 let a: Vec<T> = pt.a.iter().map(|&v| T::of64(v as f64)).collect();
